@@ -32,6 +32,38 @@ def run(ctx):
     rep.rule("OVL-3", "the returned time is the reading after the adjustment", floor=2)
     rep.rule("OVL-4", "timestamp conversion of an overlay clock goes through time_from_underlying", floor=1)
     rep.rule("OVL-5", "time_from_underlying is the affine map over all four inputs; now() uses it", floor=2)
+
+    rep.rule("OVL-6", "a fresh overlay is the identity map: OverlayClock::new starts with shift 0 and a frequency difference "
+                      "of 0 ppm, anchored at the underlying clock's reading", floor=1)
+    try:
+        nw_ = [b for b in prog.find(name="new", self_name="OverlayClock", crate="statime-lib") if not b.is_closure]
+        if len(nw_) != 1:
+            raise AnchorMissing("OverlayClock::new not found")
+        nb = nw_[0]
+        pvn = df.Prov(nb)
+        agg = None
+        for bi, si, st in mir.iter_stmts(nb):
+            if st["k"] == "assign" and st["r"]["k"] == "agg" and st["r"].get("name") == "OverlayClock":
+                agg = dict(pvn.rvalue_tree(st["r"])[3])
+        if agg is None:
+            raise AnchorMissing("OverlayClock::new does not build an OverlayClock literal")
+        fr = df._num(df.strip(agg.get("freq_scale_ppm_diff", ("unknown",))))
+        sh = df.canon(agg.get("shift", ("unknown",)), nb)
+        ls = df.canon(agg.get("last_sync", ("unknown",)), nb)
+        problems = []
+        if fr is None or float(fr) != 0.0:
+            problems.append("freq_scale_ppm_diff starts at %s (a ppm DIFFERENCE: the neutral value is 0)" % (fr if fr is not None else df.canon(agg.get("freq_scale_ppm_diff", ("unknown",)), nb)))
+        if not any(z in sh for z in ("from_fixed_nanos(0)", "from_nanos(0)", "ZERO", "default()", "from_secs(0)", "from_seconds(0")):
+            problems.append("shift starts at `%s`" % sh)
+        if not ls.startswith("now("):
+            problems.append("last_sync starts at `%s`, not at the underlying clock's reading" % ls)
+        if problems:
+            rep.violation("OVL-6", nb.key, "initial map", "; ".join(problems) + ": the overlay drifts / is offset from the "
+                          "underlying clock before it was ever adjusted", where=nb.loc())
+        else:
+            rep.ok("OVL-6", nb.key, "initial map", detail={"shift": sh, "freq_scale_ppm_diff": fr, "last_sync": ls}, where=nb.loc())
+    except AnchorMissing as e:
+        rep.anchor_missing("OVL-6", str(e))
     methods = [b for b in prog.find(self_name="OverlayClock", crate="statime-lib") if not b.is_closure]
     if not methods:
         rep.anchor_missing("OVL-1", "no OverlayClock methods found")
